@@ -11,6 +11,8 @@ R11.3  every integer / and % sits in the else-position of guards excluding a zer
        operands, MIN / -1
 R11.4  every float->int conversion is guarded exactly (decided point-wise in C02 R02.5, which reports an unguarded
        conversion as undefined behaviour; here: each such cast is inside a conditional chain)
+R11.8  count-leading/trailing-zero builtins are undefined for a zero argument: the argument, as converted to the builtin's
+       parameter width, must be the value that the dominating non-zero test examined (a 64-bit test does not protect a 32-bit builtin)
 R11.5  no typed dereference of linear memory in the little-endian configuration (only byte copies / atomics)
 R11.6  compile witness: one translation unit containing every template compiles without errors with gcc and clang
        as -std=gnu89 (thorough: gnu99, gnu11, gnu17) with implicit declarations and incompatible pointers as errors
@@ -240,6 +242,29 @@ def _div_rec(chk, e, guards, fname, site, template):
                      % (e.x, fname, ' [template: %s]' % template.strip() if template else ''), site + ':div-guard', e.loc())
         else:
             chk.ok('R11.3', '%s:guarded-division' % fname)
+    if e.k == 'call' and re.match(r'__builtin_c[lt]z(l|ll)?$', e.x or ''):
+        n += 1
+        pw = 32 if e.x in ('__builtin_clz', '__builtin_ctz') else 64
+        arg = ct.iabs(ct.E('cast', 'unsigned int' if pw == 32 else 'unsigned long long', [e.a[0]], e.a[0].node, 'IntegralCast'))
+        ok = False
+        seen = []
+        for g, taken in guards:
+            g0, _ = _unwrap(g)
+            tested = None
+            if g0.k == 'bin' and g0.x in ('==', '!=') and ct.const_value(g0.a[1]) == 0:
+                if (g0.x == '!=') == taken:
+                    tested = ct.iabs(g0.a[0])
+            elif taken and g0.k in ('var', 'cast'):
+                tested = ct.iabs(g)
+            if tested is not None and tested[0] == 'slice':
+                seen.append(tested)
+                # the test says: the low k bits of slot are not all zero; the builtin sees the low min(pw, ..) bits of the same slot
+                if arg[0] == 'slice' and arg[1] == tested[1] and arg[2] >= tested[2]:
+                    ok = True
+        chk.expect(ok, 'R11.8', '%s:%s-nonzero' % (fname, e.x),
+                   '%s(%r) in %s: the %d-bit argument is not the value a dominating non-zero test examined (tests seen: %r); for an operand whose '
+                   'examined bits are non-zero but whose low %d bits are zero the builtin is undefined%s'
+                   % (e.x, e.a[0], fname, pw, seen, pw, ' [template: %s]' % template.strip() if template else ''), site + ':builtin-zero', e.loc())
     if e.k == 'cast' and e.x == 'FloatingToIntegral':
         chk.expect(bool(guards), 'R11.4', '%s:float-to-int-guarded' % fname,
                    'float-to-integer conversion in %s is outside any range guard (exact boundaries are decided by C02 R02.5)%s'
@@ -451,3 +476,4 @@ def run(chk):
     chk.floor('R11.5', 80)
     chk.floor('R11.6', 2)
     chk.floor('R11.7', 14)
+    chk.floor('R11.8', 8)
